@@ -597,7 +597,7 @@ def run_instance(inst, tier):
         # -DVF_TRACE_RUN, see rt/cbmc_rt.h) for harness checks; the full unsliced run otherwise
         want = [r['property'] for r in fails][:8]
         m2 = None
-        if all(classify(r['description']) in ('check', 'race') for r in fails[:8]):
+        if not inst.get('unsliced_trace') and all(classify(r['description']) in ('check', 'race') for r in fails[:8]):
             i2 = dict(inst)
             i2['rt_defs'] = dict(inst.get('rt_defs', {}), VF_TRACE_RUN=1)
             i2['_sliced_trace'] = True
